@@ -115,7 +115,7 @@ def execute(case):
         tr["raw_known"] = True
         tr["raw"] = [[int(x) for x in r] for r in captured["raw"]]
     K = len(tr["sizes"])
-    ok = isinstance(out, list)
+    ok = isinstance(out, (list, tuple))          # the container is not pinned down by the property; the entries are
     enc = []
     for e in (out if ok else []):
         import numbers
